@@ -409,6 +409,10 @@ class FitsHooks(Hooks):
             from .interp import symarr
             uc = kwargs.get('usecols')
             dt = kwargs.get('dtype')
+            if isinstance(uc, int) and not isinstance(uc, bool):
+                uc = [uc]
+            if isinstance(uc, (list, tuple)) and len(uc) == 1 and isinstance(uc[0], int) and not isinstance(dt, list) and not kwargs.get('unpack'):
+                return symarr('filecol%d' % uc[0], ('row',), unit=num(1))          # one column asked for: numpy returns it as a 1-d array
             if isinstance(uc, (list, tuple)) and all(isinstance(k_, int) for k_ in uc):
                 colsym = [symarr('filecol%d' % k_, ('row',), unit=num(1)) for k_ in uc]
                 if isinstance(dt, list) and all(isinstance(f_, tuple) and len(f_) == 2 and isinstance(f_[0], str) for f_ in dt) and len(dt) == len(uc):
